@@ -167,6 +167,7 @@ impl Selector {
     /// combinators)?
     fn compound_matches(compound: &[SelectorComponent], node: &Handle) -> bool {
         for comp in compound {
+            verif_tick!(SelectorMatch);
             if !Self::component_matches(comp, node) {
                 return false;
             }
@@ -179,6 +180,7 @@ impl Selector {
     fn nearest_matching(compound: &[SelectorComponent], start: Option<Handle>) -> Option<Handle> {
         let mut ancestor = start;
         while let Some(candidate) = ancestor {
+            verif_tick!(SelectorMatch);
             if Self::compound_matches(compound, &candidate) {
                 return Some(candidate);
             }
